@@ -57,11 +57,14 @@ func c14(c *Ctx) {
 	r.Rule("R14.1", "table exhaustiveness and typing: keys = Data_* constants; concrete result types per key are of the class the property states; lazy and preload tables yield the same class per key")
 	r.Rule("R14.2", "dispatch shape of the reifier dispatcher, read from its CFG: !ok of the dag-pb assertion ⇒ return (parameter, nil); Data absent ⇒ default reifier; decode error ⇒ default reifier; table miss ⇒ (nil, error)")
 	r.Rule("R14.3", "kind: every file node type returns the constant Kind_Bytes from Kind() or embeds a node that is bytes-kind at every allocation; every directory node type's Kind() returns the Kind() of its dag-pb substrate")
+	r.Rule("R14.5", "totality of the dispatch: every may-panic construct (index, slice, unchecked assertion, Must) in the registered reifiers and the root-package functions they reach is discharged by C13's guard recognition — an out-of-range or negative data type must end in the error return, not in a panic")
 	r.Rule("R14.4", "substrate identity: Substrate() returns a load of receiver field F; every allocation of the type stores into F a parameter of the allocating function; along every static call chain up to the dispatcher that argument is again the caller's own substrate parameter")
 
+	c.checkDispatchTotality()
 	lazy, preload, lazyName, preloadName, ok := c.lazyAndPreloadTables()
 	if !ok {
-		r.Break("cannot identify the reifier tables")
+		r.Break("cannot identify the reifier tables (two package-level maps from data type to constructor reached from the registered reifiers)")
+		c.checkSubstrate()
 		return
 	}
 	consts := c.dataTypeConsts()
@@ -640,4 +643,58 @@ func (c *Ctx) isSubstrateParam(fn *ssa.Function, v ssa.Value, depth int) (bool, 
 		}
 	}
 	return true, fmt.Sprintf("parameter %s of %s, passed unchanged by %d static caller(s)", p.Name(), core.FuncName(fn), n)
+}
+
+// checkDispatchTotality implements R14.5: the reifier entry points and what they reach inside the root package contain no
+// undischarged may-panic site.
+func (c *Ctx) checkDispatchTotality() {
+	r := c.R
+	reg, _ := c.reifierRegistry()
+	seen := map[*ssa.Function]bool{}
+	var queue []*ssa.Function
+	for _, f := range reg {
+		if f != nil && !seen[f] {
+			seen[f] = true
+			queue = append(queue, f)
+		}
+	}
+	for len(queue) > 0 {
+		f := queue[0]
+		queue = queue[1:]
+		for _, e := range c.G.Out[f] {
+			if rel, ok := c.P.PkgOf(e.Callee); ok && rel == "" && !seen[e.Callee] {
+				seen[e.Callee] = true
+				queue = append(queue, e.Callee)
+			}
+		}
+		// the unspecialised dispatcher is not an Out-edge of callers that pass constants: add static callees too
+		for _, ci := range core.CallsIn(f) {
+			if g := ci.Common().StaticCallee(); g != nil {
+				if rel, ok := c.P.PkgOf(g); ok && rel == "" && !seen[g] {
+					seen[g] = true
+					queue = append(queue, g)
+				}
+			}
+		}
+	}
+	d := newDischarger(c)
+	n, nsites := 0, 0
+	for _, fn := range core.SortedFuncs(seen) {
+		if fn.Synthetic != "" {
+			continue
+		}
+		n++
+		for _, s := range c.enumeratePanicSites(fn) {
+			if s.kind == "qp-entry" || s.kind == "panic" {
+				continue
+			}
+			nsites++
+			ok, how := d.discharge(s)
+			key := "totality:" + c.siteKey(s)
+			r.Check(ok, "R14.5", key, c.P.Pos(s.ins.Pos()), s.desc+": "+how, s.desc+" in the reification dispatch may panic instead of returning an error: "+how)
+		}
+	}
+	r.Analysed["dispatch_functions"] = n
+	r.Floor("R14.5/functions", n, 4)
+	_ = nsites
 }
